@@ -142,3 +142,80 @@ func drawRec(t *rapid.T, o GenOpts, d int) Sel {
 	}
 	return r
 }
+
+// DrawWild draws selector ASTs WITHOUT the constraints of Draw: any integers (boundary
+// values, negative depths and indices, huge ranges, inverted subsets), recursive edges
+// anywhere (also outside any recursion, as the whole sequence, or directly under a union
+// in the sequence), recursions nested in recursions. Used for the totality checks (C10).
+func DrawWild(t *rapid.T, depth int, links []string) Sel {
+	wildInt := func(label string) int64 {
+		switch rapid.IntRange(0, 3).Draw(t, label+".mode") {
+		case 0:
+			return int64(rapid.IntRange(-3, 6).Draw(t, label))
+		case 1:
+			return rapid.SampledFrom([]int64{0, -1, 1, 1 << 31, 1<<31 - 1, 1 << 32, 1 << 40, 1<<62 + 5, 1<<63 - 1, -1 << 63, -1<<63 + 1, 1 << 20, 100000}).Draw(t, label)
+		default:
+			return int64(rapid.IntRange(0, 4).Draw(t, label))
+		}
+	}
+	if depth <= 0 {
+		switch rapid.IntRange(0, 3).Draw(t, "leaf") {
+		case 0:
+			return Edge()
+		case 1:
+			return MatchSubset(wildInt("from"), wildInt("to"))
+		}
+		return Match()
+	}
+	switch rapid.IntRange(0, 8).Draw(t, "clause") {
+	case 0:
+		return Match()
+	case 1:
+		return All(DrawWild(t, depth-1, links))
+	case 2:
+		n := rapid.IntRange(0, 3).Draw(t, "nfields")
+		var fs []Field
+		seen := map[string]bool{}
+		for i := 0; i < n; i++ {
+			name := rapid.SampledFrom([]string{"a", "b", "0", "1", "00", "+1", "-1", "", "/", "l", "x"}).Draw(t, "fname")
+			if seen[name] {
+				continue
+			}
+			seen[name] = true
+			fs = append(fs, Field{name, DrawWild(t, depth-1, links)})
+		}
+		return Fields(fs...)
+	case 3:
+		return Index(wildInt("idx"), DrawWild(t, depth-1, links))
+	case 4:
+		return Range(wildInt("lo"), wildInt("hi"), DrawWild(t, depth-1, links))
+	case 5:
+		n := rapid.IntRange(0, 3).Draw(t, "nmembers")
+		ms := make([]Sel, n)
+		for i := range ms {
+			ms[i] = DrawWild(t, depth-1, links)
+		}
+		return Union(ms...)
+	case 6:
+		return Edge()
+	default:
+		seq := DrawWild(t, depth-1, links)
+		// degenerate sequences: an edge that is reachable without consuming a path segment
+		switch rapid.IntRange(0, 5).Draw(t, "degenerate") {
+		case 0:
+			seq = Union(Edge(), seq)
+		case 1:
+			seq = Union(seq, Edge())
+		case 2:
+			seq = Union(Union(Match(), Edge()), All(seq))
+		}
+		r := Rec(wildInt("limit"), seq)
+		if rapid.Bool().Draw(t, "nolimit") {
+			r.Limit = -1
+		}
+		if len(links) > 0 && rapid.IntRange(0, 2).Draw(t, "stop") == 0 {
+			r.StopAt = val.Txt(rapid.SampledFrom(links).Draw(t, "stoplink"))
+		}
+		return r
+	}
+}
